@@ -55,7 +55,14 @@ pub fn replay(ctx: &Ctx, path: &str) -> i32 {
                         kind: case.get("cmp").and_then(|c| c.get("kind")).and_then(|b| b.as_bool()).unwrap_or(false),
                     };
                     println!("model expects: printed {:?}, outcome {:?}", model.out, model.outcome);
-                    r.results.get(0).and_then(|res| compare(&model, res, opts))
+                    {
+                        let idx = case.get("result_index").and_then(|i| i.as_u64()).unwrap_or(0) as usize;
+                        if let Some(p) = r.results.iter().find_map(|res| match &res.outcome { proto::Outcome::Panic { msg } => Some(format!("interpreter panicked: {}", msg)), _ => None }) {
+                            Some(p)
+                        } else {
+                            r.results.get(idx).and_then(|res| compare(&model, res, opts))
+                        }
+                    }
                 } else if let (Some(out), Some(end)) = (expected.and_then(|e| e.get("out")), expected.and_then(|e| e.get("end"))) {
                     let e = Expect {
                         family: "replay",
